@@ -68,7 +68,7 @@ def check_actor(ctx, facts):
             continue
         for tgt in body.succ(i):
             if writes and all(body.edge_dominates((i, tgt), w) for w in writes) and not body.edge_dominates((i, tgt), sel[0]):
-                if arm is None or body.dominates(arm[0], i):
+                if arm is None or body.dominates(i, arm[0]):
                     arm = (i, tgt)
     if arm is None:
         ctx.bad('C15.N1', 'update-arm', site(body), 'the membership-update arm writing the layout map was not found (fail closed)')
